@@ -13,6 +13,7 @@ from ..world import World
 
 ID = "C13"
 LEVEL = "exploration"
+ENGINE_B2 = True
 BUDGET = {"quick": {"n": 70, "variants": 10, "wall_s": 420}, "thorough": {"n": 2000, "variants": 22, "wall_s": 3300}}
 RULE = ("per world: a reference run (--threads 1) and V variants drawn from thread specs {1, main:1, 0, default:1,1, "
         "ssd:64,64, hdd:1,1, unknown:3,2, 16, main:2+default:4,1, 64} x permutation of the roots x {arguments, --stdin} x "
